@@ -19,6 +19,10 @@ def impl_packets(gm):
     try:
         out = gm.to_lib()
         pk = out.packets()
+        again = out.packets()
+        if again != pk:
+            # "none duplicated": a message sent twice must not grow
+            return ("twice", [len(p) for p in again][:50])
         if any(len(p) > 8966 for p in pk):
             # keep the evidence small: a builder that emits oversized datagrams can emit megabytes of them
             return ("oversize", [len(p) for p in pk][:50])
@@ -77,6 +81,12 @@ def predicates(res, gm, pk, strict_lines, prop):
             if maxlab > 63:
                 return ("%s:label-%s-encodes-undecodable" % (prop, "64" if maxlab == 64 else "gt64"),
                         "a %d-byte label was encoded instead of being rejected; the strict decoder rejects the datagram" % maxlab)
+            if gm.max_wire_len() > 255:
+                if prop != "C01":
+                    return None  # C14 is about sizes and accounting; over-long names are C01's finding D21
+                return ("C01:name-over-255-octets-emitted",
+                        "a name of %d wire octets (<= 253 characters of non-ASCII text) was neither rejected nor can any RFC 1035 "
+                        "decoder recover it: the builder never checks the total encoded length of a name" % gm.max_wire_len())
             return ("%s:strict-decoder-rejects" % prop, "the independent RFC 1035 decoder rejects an emitted datagram")
         dec.append(W.parse_wmsg(sl[3:]))
     if strict_lines and strict_lines[0] is not None:
@@ -107,21 +117,30 @@ def predicates(res, gm, pk, strict_lines, prop):
                 return ("%s:over-1460-with-%d-entries" % (prop, n), "a %d-byte datagram carries %d entries" % (len(p), n))
     # the library's own decoder
     exq, exan, exau, exad = gm.expect()
-    lq, lr = [], []
+    lq, lan, lau, lad = [], [], [], []
     for p in pk:
         d = lib_decode(p)
         if d is None or d[0] == "exc":
             if maxlab > 63:
                 return ("%s:label-%s-encodes-undecodable" % (prop, "64" if maxlab == 64 else "gt64"), "the library cannot decode its own datagram (label of %d bytes)" % maxlab)
+            if gm.max_wire_len() > 255 and prop != "C01":
+                return None
             return ("%s:lib-decoder-rejects" % prop, "DNSIncoming marks an emitted datagram invalid: %r" % (d,))
         lq += d[2]
-        lr += d[3]
-    # the library returns answers+authorities+additionals of each packet as one list
+        # the library returns answers+authorities+additionals of a packet as one list in wire order: split it by the
+        # header counts so that order and section membership are compared, not only the multiset
+        nq_, na, nu, nd = d[4]
+        recs = d[3]
+        if len(recs) != na + nu + nd or len(d[2]) != nq_:
+            return ("%s:roundtrip-lib:counts" % prop, "DNSIncoming returns %d questions / %d records for header counts %r" % (len(d[2]), len(recs), d[4]))
+        lan += recs[:na]
+        lau += recs[na:na + nu]
+        lad += recs[na + nu:]
     if lq != exq:
         return ("%s:roundtrip-lib:questions" % prop, "DNSIncoming does not give back the questions")
-    # per-packet concatenation order: compare as per-section multisets in order using strict split when available
-    if sorted(map(repr, lr)) != sorted(map(repr, exan + exau + exad)):
-        return ("%s:roundtrip-lib:records" % prop, "DNSIncoming does not give back the records")
+    for nm, got, want in (("answers", lan, exan), ("authorities", lau, exau), ("additionals", lad, exad)):
+        if list(map(repr, got)) != list(map(repr, want)):
+            return ("%s:roundtrip-lib:%s" % (prop, nm), "DNSIncoming does not give back the %s, in order" % nm)
     return None
 
 
@@ -179,16 +198,16 @@ def run_prop(ctx, prop, size_bias=None):
             else:
                 strict_out[(k, j)] = out
     res.rule = ("seeded messages from a vocabulary of names with shared suffixes / case variants / non-ASCII / dotted labels / labels of 62-65 bytes, all 7 record "
-                "kinds, TTL incl. 0 and 2^32-1, remaining-TTL answers around expiry, 0-400 entries per section, TXT payloads steered onto the 1460 and 8966 "
+                "kinds, classes incl. 256/0x0101/0x7FFF, flags incl. a caller-set TC, TTL incl. 0 and 2^32-1, remaining-TTL answers around expiry, 0-400 entries per section (authorities 0-300, any kind), TXT payloads steered onto the 1460 and 8966 "
                 "boundaries (second pass using the implementation's own packet length), plus a malformed stream (labels 64-300, strings 256+, bad NSEC); "
                 "non-trivial = distinct (size class, #packets, kinds present, multicast, query, outcome) signatures")
     for k, ((kind, m), (ik, iv)) in enumerate(zip(cases, impl)):
         res.evaluations += 1
-        npk = len(iv) if ik in ("ok", "oversize") else 0
+        npk = len(iv) if ik in ("ok", "oversize", "twice") else 0
         kinds = "".join(sorted({e.kind for e in m.entries()}))
-        res.nontriv((kind.split(":")[0], min(npk, 6), kinds, m.multicast, (m.flags & 0x8000) == 0, ik if ik in ("ok", "oversize") else iv,
+        res.nontriv((kind.split(":")[0], min(npk, 6), kinds, m.multicast, (m.flags & 0x8000) == 0, ik if ik in ("ok", "oversize", "twice") else iv,
                      max((len(p) for p in iv), default=0) > 1460 if ik == "ok" else None))
-        res.count("outcome:" + (ik if ik in ("ok", "oversize") else iv))
+        res.count("outcome:" + (ik if ik in ("ok", "oversize", "twice") else iv))
         res.count("packets:%s" % ("1" if npk == 1 else "2-5" if 2 <= npk <= 5 else ">5" if npk > 5 else "0"))
         if ik == "ok":
             for p in iv:
@@ -198,6 +217,9 @@ def run_prop(ctx, prop, size_bias=None):
         case = {"msg": m.tok(), "kind": kind}
         if ik == "oversize":
             res.violate("%s:oversized-packet" % prop, "datagrams of %s bytes were produced (limit 8966)" % iv[:8], case)
+            continue
+        if ik == "twice":
+            res.violate("%s:second-packets-call-differs" % prop, "calling packets() again on the same message returns other datagrams (sizes %s)" % iv[:8], case)
             continue
         # C: byte-exact
         if model is not None:
